@@ -23,7 +23,7 @@ From FV Require Import Model.PegSyntax Model.Peg Model.PegWf Model.ParserStrings
      Model.Parser Model.ParserFiles Gen.Grammar Proofs.PegProofs Proofs.ParserProofs Proofs.ParserLexProofs
      Proofs.ParserEvals Proofs.ParserRoundTrip Proofs.ParserRoundTripEnum Proofs.ParserPrefixProofs
      Proofs.ParserRoundTripStruct Proofs.ParserRoundTripConst Proofs.ParserRoundTripService Proofs.ParserRoundTripFile
-     Proofs.ParserFragmentCheck.
+     Proofs.ParserFragmentCheck Proofs.ParserKeywordProofs.
 Import ListNotations.
 Open Scope Z_scope.
 
@@ -200,14 +200,15 @@ Theorem c10_roundtrip_partial : forall (w0 : bytes) (ds : list decl_spec),
 Proof. exact roundtrip_decls. Qed.
 Print Assumptions c10_roundtrip_partial.
 
-(** the enums in that result: names as declared, values = Apache Thrift's numbering of the
-    declared (optional) numbers -- the enum-numbering theorem carried through the whole parser
-    (same range hypothesis) *)
+(** the enums in that result: names as declared, values = Apache Thrift's numbering of the declared
+    (optional) numbers, every one of them a 64-bit integer -- the enum-numbering theorem carried through the
+    whole parser; no range hypothesis beyond those of the round-trip theorem itself ([en_ok]) *)
 Theorem c10_enum_numbering_end_to_end : forall e : en_spec,
-  numbering_in_range (map (fun v => declared (v_tail v)) (e_vs e)) (-1) ->
-  map ev_value (en_values (enum_of e)) = thrift_numbering (map (fun v => declared (v_tail v)) (e_vs e)) (-1)
+  en_ok e ->
+  Forall in64 (thrift_numbering (map (fun v => declared (v_tail v)) (e_vs e)) (-1))
+  /\ map ev_value (en_values (enum_of e)) = thrift_numbering (map (fun v => declared (v_tail v)) (e_vs e)) (-1)
   /\ map ev_name (en_values (enum_of e)) = map (fun v => v_c v :: v_t v) (e_vs e).
-Proof. exact enum_of_numbering. Qed.
+Proof. exact enum_of_numbering_ok. Qed.
 Print Assumptions c10_enum_numbering_end_to_end.
 
 (** * Stage 5, continued: the fragment grown to struct / exception / union declarations with fields,
@@ -297,7 +298,68 @@ Theorem c10_field_type_roundtrip : forall (t : ty_spec) (more : bytes) cr o es f
 Proof. exact (fun t more cr o es fr Hok Hm Hs => field_type_rule t Hok more cr o es fr Hm Hs). Qed.
 Print Assumptions c10_field_type_roundtrip.
 
-(** * Stage 2 (keyword boundaries) and the separator / comment / literal stages: instances
+(** * Stage 2. Keywords end at a word boundary (for all inputs)
+    For each of the keywords the pinned grammar matched as a prefix -- the eight base-type names (rule
+    BaseTypeName), required / optional (FieldModifier), true / false (BoolConstant), oneway (in Function) and
+    void (in FunctionType) -- and EVERY continuation  d s  where d is an ASCII character that can continue an
+    identifier (letter, digit, '.', '_'): the rule (for oneway / void: the guarded keyword inside its rule)
+    does not match the keyword and leaves position, error list and labels alone (the optional oneway yields
+    nil).  Before the repairs of C10-F8a..e each of these matched, so that  i32x, optionalThing, onewayTicket,
+    voidable, trueValue  were split or rejected. *)
+Theorem c10_keyword_boundary : forall (d : Z) (s : bytes) cr o es fr,
+  ascii d -> p_cont d = true -> ascii_next s ->
+  (forall base, is_base base ->
+     evals (CRef 24) cr (mkst (base ++ d :: s) o es) fr (Done false VNil (mkst (base ++ d :: s) o es) fr))
+  /\ (forall kw, kw = lit_required \/ kw = lit_optional ->
+     evals (CRef 16) cr (mkst (kw ++ d :: s) o es) fr (Done false VNil (mkst (kw ++ d :: s) o es) fr))
+  /\ (forall kw, kw = lit_true \/ kw = lit_false ->
+     evals (CRef 33) cr (mkst (kw ++ d :: s) o es) fr (Done false VNil (mkst (kw ++ d :: s) o es) fr))
+  /\ evals oneway_opt cr (mkst (lit_oneway ++ d :: s) o es) fr
+           (Done true VNil (mkst (lit_oneway ++ d :: s) o es) (("oneway"%string, VNil) :: fr))
+  /\ evals (CSeq [CLit lit_void; kw_guard]) cr (mkst (lit_void ++ d :: s) o es) fr
+           (Done false VNil (mkst (lit_void ++ d :: s) o es) fr).
+Proof.
+  exact (fun d s cr o es fr Hd Hp Hs =>
+    conj (fun base Hb => base_type_name_boundary base d s cr o es fr Hb Hd Hp Hs)
+   (conj (fun kw Hk => field_modifier_boundary kw d s cr o es fr Hk Hd Hp Hs)
+   (conj (fun kw Hk => bool_constant_boundary kw d s cr o es fr Hk Hd Hp Hs)
+   (conj (oneway_boundary d s cr o es fr Hd Hp Hs) (void_boundary d s cr o es fr Hd Hp Hs))))).
+Qed.
+Print Assumptions c10_keyword_boundary.
+
+(** ... and where nothing that continues a word follows, the keyword is the keyword: BaseTypeName on each of
+    the eight names, BoolConstant on true / false (for required / optional / oneway / void this is part of
+    [c10_roundtrip_structs_partial]) *)
+Theorem c10_keyword_matches : forall (follow : bytes) cr o es fr,
+  stops p_cont follow ->
+  (forall base, is_base base ->
+     evals (CRef 24) cr (mkst (base ++ follow) o es) fr
+           (Done true (VStr base) (mkst follow (o + Z.of_nat (List.length base)) es) fr))
+  /\ (forall b : bool,
+     evals (CRef 33) cr (mkst ((if b then lit_true else lit_false) ++ follow) o es) fr
+           (Done true (VBool b) (mkst follow (o + Z.of_nat (List.length (if b then lit_true else lit_false))) es) fr)).
+Proof.
+  exact (fun follow cr o es fr Hst =>
+    conj (fun base Hb => base_type_name base follow cr o es fr Hb Hst)
+         (fun b => bool_constant_rule b follow cr o es fr Hst)).
+Qed.
+Print Assumptions c10_keyword_matches.
+
+(** FieldType longest match (the statement DESIGN.md planned as stage 2): for every base-type keyword
+    [base], every identifier character d and run of identifier characters t -- i.e. every name that begins
+    with a base-type keyword: i32x, stringList, binary_data, bool_, double.x, ... -- followed by end of input
+    or an ASCII character that cannot continue an identifier, the rule FieldType consumes exactly the name and
+    yields the named type: BaseType fails at the word boundary, no container keyword matches, Identifier
+    takes the whole word.  (Refuted on the pinned grammar by  typedef i32x T.) *)
+Theorem c10_fieldtype_longest_match : forall (base : bytes) (d : Z) (t follow : bytes) cr o es fr,
+  is_base base -> ascii d -> p_cont d = true -> run_of p_cont t -> stops p_cont follow ->
+  evals (CRef 22) cr (mkst ((base ++ d :: t) ++ follow) o es) fr
+        (Done true (VType (PType (base ++ d :: t) None None []))
+              (mkst follow (o + Z.of_nat (List.length (base ++ d :: t))) es) fr).
+Proof. exact field_type_keyword_prefixed_name. Qed.
+Print Assumptions c10_fieldtype_longest_match.
+
+(** * Keyword boundaries and the separator / comment / literal stages: instances through the whole parser
     The pinned grammar matched its keywords as prefixes (known findings C10-F8a..e, now repaired: the keyword
     must be followed by something that cannot continue an identifier).  Each theorem below was the
     [_refuted] witness of its defect and now states what the model of the repaired grammar -- and the real
@@ -402,6 +464,19 @@ Example c10_identifier_nonvacuous :
      = Done true (VIdent [105; 51; 50; 120; 95]) (mkst [32; 84] 5 []) [].
 Proof.
   split; [unfold ascii; lia|]. split; [reflexivity|].
+  split; [repeat constructor; unfold ascii; lia|]. split; [split; [unfold ascii; lia | reflexivity]|].
+  vm_compute. reflexivity.
+Qed.
+
+(** the keyword theorems' hypotheses hold of  i32  followed by  x  and of the name  i32x_  before a blank; the
+    interpreter run on  "i32x_ T"  from FieldType gives the named type *)
+Example c10_keyword_boundary_nonvacuous :
+  is_base (bytes_of_string "i32") /\ ascii 120 /\ p_cont 120 = true /\ run_of p_cont [95] /\ stops p_cont [32; 84]
+  /\ Peg.eval action val aerr VNil VBytes VList run_action rules 40 (CRef 22) 0
+              (mkst [105; 51; 50; 120; 95; 32; 84] 0 []) []
+     = Done true (VType (PType [105; 51; 50; 120; 95] None None [])) (mkst [32; 84] 5 []) [].
+Proof.
+  split; [right; right; right; left; reflexivity|]. split; [unfold ascii; lia|]. split; [reflexivity|].
   split; [repeat constructor; unfold ascii; lia|]. split; [split; [unfold ascii; lia | reflexivity]|].
   vm_compute. reflexivity.
 Qed.
